@@ -39,14 +39,27 @@ def main():
             ns.append(int(a))
     out = "/tmp/mut/%s-out" % prop
     wt = "/tmp/mut/%s" % prop
+    have_wt = os.path.isdir(wt)
     ns = ns or [n for n in (1, 2, 3, 4, 5) if os.path.exists("%s/mutation-%d.diff" % (out, n))]
     for n in ns:
         mut, demo = "%s/mutation-%d.diff" % (out, n), "%s/demo-%d.diff" % (out, n)
         meta = json.load(open("%s/meta-%d.json" % (out, n)))
         res = {"property": prop, "n": n, "title": meta.get("title")}
-        sh("git checkout -- . && git clean -fdq src", cwd=wt)
         filt = demo_filter(meta)
-        if os.path.exists(demo) and filt:
+        prev = {}
+        if not have_wt:
+            # the scratch worktree is gone: keep the demo / test-suite confirmation recorded by the first run
+            try:
+                prev = json.load(open("%s/seeded/%s-%d/meta.json" % (V, prop, n))).get("what_i_ran", {})
+            except Exception:
+                prev = {}
+            for k in ("demo_without_change", "demo_with_change", "tests_with_change"):
+                res[k] = prev.get(k, "not re-run (worktree removed)")
+        else:
+            sh("git checkout -- . && git clean -fdq src", cwd=wt)
+        if not have_wt:
+            pass
+        elif os.path.exists(demo) and filt:
             rc, o = sh("git apply %s && cargo test --offline %s 2>&1 | tail -5" % (demo, filt), cwd=wt)
             res["demo_without_change"] = "passes" if re.search(r"test result: ok\. [1-9]", o) else "DOES NOT PASS: " + o[-300:]
             sh("git checkout -- . && git clean -fdq src", cwd=wt)
@@ -62,9 +75,10 @@ def main():
             sh("git checkout -- . && git clean -fdq src", cwd=wt)
         else:
             res["demo_without_change"] = res["demo_with_change"] = "not a cargo-test demo (see meta.demo_cmd); not re-run by this tool"
-        rc, o = sh("git apply %s && cargo test --offline 2>&1 | grep 'test result'" % mut, cwd=wt)
-        res["tests_with_change"] = o.strip()[-80:]
-        sh("git checkout -- . && git clean -fdq src", cwd=wt)
+        if have_wt:
+            rc, o = sh("git apply %s && cargo test --offline 2>&1 | grep 'test result'" % mut, cwd=wt)
+            res["tests_with_change"] = o.strip()[-80:]
+            sh("git checkout -- . && git clean -fdq src", cwd=wt)
         # the checks against the change, on /repo itself
         rc, o = sh("git -C /repo status --short | grep -v '^??' | head -1")
         if o.strip():
@@ -77,8 +91,8 @@ def main():
             res["checks"] = {}
             for c in [prop] + also:
                 rc, o = sh("./check %s --tier quick" % c, cwd=V, timeout=3600)
-                v = [l for l in o.splitlines() if l.startswith("VIOLATION") or l.startswith("KNOWN-FINDING")]
-                res["checks"][c] = {"exit": rc, "lines": [l[:300] for l in v][:6], "tail": o.strip().splitlines()[-1][:300]}
+                v = [l for l in o.splitlines() if l.startswith("VIOLATION")]
+                res["checks"][c] = {"exit": rc, "lines": [l[:300] for l in v][:8], "tail": o.strip().splitlines()[-1][:300]}
             sh("git -C /repo checkout -- .")
         d = "%s/seeded/%s-%d" % (V, prop, n)
         os.makedirs(d, exist_ok=True)
